@@ -13,6 +13,8 @@ import (
 	"github.com/yandex/pandora/core"
 	"net"
 	"net/http"
+	"os"
+	"path/filepath"
 	"strconv"
 	"strings"
 	"time"
@@ -145,8 +147,11 @@ func failureKinds(res *vkit.Result) {
 		{name: "refused", wantProto: 0, wantNet: 111}, // ECONNREFUSED
 	}
 	for _, k := range kinds {
-		for _, gunType := range []string{"http", "connect"} {
-			if gunType == "connect" && k.name != "refused" && k.name != "reset" {
+		// "http+answlog" / "http+trace": the gun also writes every exchange to its answer log (filter
+		// all), or dumps and traces it — what it looked at on the way must not change the verdict
+		for _, gunVar := range []string{"http", "connect", "http+answlog", "http+trace"} {
+			gunType := strings.Split(gunVar, "+")[0]
+			if gunVar != "http" && k.name != "refused" && k.name != "reset" && !(gunType == "http" && k.name == "short-body") {
 				continue
 			}
 			addr := vkit.ClosedPort()
@@ -164,8 +169,14 @@ func failureKinds(res *vkit.Result) {
 			for kk, v := range k.gunExtra {
 				gun[kk] = v
 			}
-			c := map[string]any{"failure": k.name, "gun": gunType}
-			key := "C10/http-failure/" + k.name + "/" + gunType
+			if strings.HasSuffix(gunVar, "+answlog") {
+				gun["answlog"] = map[string]any{"enabled": true, "filter": "all", "path": filepath.Join(vkit.TmpDir(), fmt.Sprintf("c10-answ-%d.log", os.Getpid()))}
+			}
+			if strings.HasSuffix(gunVar, "+trace") {
+				gun["httptrace"] = map[string]any{"dump": true, "trace": true}
+			}
+			c := map[string]any{"failure": k.name, "gun": gunVar}
+			key := "C10/http-failure/" + k.name + "/" + gunVar
 			samples, rr, err := runPool(pool(map[string]any{"type": "uri", "file": path, "passes": 1}, gun, 2), 60*time.Second)
 			vkit.RemoveMem(path)
 			if err != nil || rr.Err != nil || rr.Hang {
